@@ -163,12 +163,16 @@ def run(chk):
                        "hash seeds cannot be enumerated: fresh processes sample them on trees built to hit hash-iteration sites"]
     work = common.scratch("c06")
     # model level: the pipeline model is deterministic without consts/ties; with them TLC finds the leak
-    for cfg, must_hold in (("det_noconst", True), ("det_const", True), ("det_tie", False)):
+    # twice*: a file delivered twice (overlapping directory arguments): folding every delivery (the code) and a global seen-set are
+    # deterministic; one seen-set per walker thread is not - TLC shows the schedule
+    for cfg, must_hold in (("det_noconst", True), ("det_const", True), ("det_tie", False), ("twice", True), ("twice_global", True), ("twice_perworker", False)):
         res = common.run_tlc("MC_Pipeline", cfg=f"MC_Pipeline_{cfg}", workers=4, timeout=600, allow_violation=True)
         chk.add_tlc(f"MC_Pipeline[{cfg}]", res)
         chk.extra.setdefault("model_results", {})[cfg] = res.violation or "Deterministic holds for every schedule"
         if must_hold and res.violation:
             raise ToolError(f"the pipeline model is not deterministic in config {cfg}: {res.violation}")
+        if not must_hold and not res.violation:
+            raise ToolError(f"config {cfg} was expected to show a schedule-dependent outcome, TLC found none")
     res = common.run_tlc("MC_C06", cfg="MC_C06_thorough" if thorough else "MC_C06_quick", workers=4, timeout=900)
     chk.add_tlc("MC_C06", res)
     cases = res.replays
@@ -343,6 +347,26 @@ def run(chk):
                     continue
                 col.add(f"overlap{k}", sha if r["exit"] == "ok" else "refused", {"mode": "single", "dim": "thread-count", "features": "overlapping-directory-arguments",
                                                                                      "lang": lang, "detail": f"{len(items)} files, roots {roots}, threads {th} rep {rep}"})
+    # one run with every file delivered twice (the root given twice), validated as a behaviour of Pipeline with Visits = 2
+    d = os.path.join(work, "twice")
+    tfiles = {f"c{i}/src/f{i}.rs": f"#[typeshare]\npub struct T{i} {{ pub a: u32 }}\n" for i in (1, 2, 3)}
+    cli.make_tree(os.path.join(d, "src_root"), tfiles)
+    tr = os.path.join(d, "trace.ndjson")
+    os.makedirs(os.path.join(d, "o"), exist_ok=True)
+    r = cli.run_cli(["-l", "typescript", "-o", os.path.join(d, "o", "out.ts"), os.path.join(d, "src_root"), os.path.join(d, "src_root")],
+                    env={"TYPESHARE_VERIF_TRACE": tr, "TYPESHARE_VERIF_THREADS": "2"}, timeout=20)
+    if r["exit"] == "ok":
+        header, events = cli.read_trace(tr, ["f1", "f2", "f3"], names={"T1": "f1", "T2": "f2", "T3": "f3"}, outcome=0)
+        header["visits"] = {"f1": 2, "f2": 2, "f3": 2}
+        ok, matched, tres = common.trace_validate("Trace_Pipeline", [header] + events, None, 300)
+        chk.add_tlc("Trace_Pipeline[every file delivered twice]", tres)
+        if tres.violation:
+            chk.mismatch(f"C06/trace/repeated-deliveries/{tres.violation.split()[1] if tres.violation.startswith('Invariant') else 'rejected'}",
+                         f"Trace_Pipeline: {tres.violation} on a run whose root was given twice", {"roots": 2}, "P invariants hold on the real execution", tres.violation)
+        elif matched != len(events):
+            chk.model_drift(f"Trace_Pipeline consumed {matched}/{len(events)} events of the run with repeated deliveries")
+        else:
+            chk.traces += 1
     judge(chk, col)
 
 
